@@ -10,7 +10,7 @@ from ._core_common import *  # noqa
 PROP = "C11"
 LEVEL = "other"
 TECHNIQUE = "differential classification: spec-level oracle (z3 difference logic for priority cycles, structural rules for the rest) vs concrete run of the real elaboration on generated valid and deliberately invalid designs"
-OPTS = dict(multi=True, mgroup=True, p_single_group=0.3, alias=True, combiner=True, fsm=True, nested_methods=True, single_caller=True, ready_dep=True, p_fresh=0.5, mprio=True, p_tm_conflict=0.2,
+OPTS = dict(p_mbefore=0.3, multi=True, mgroup=True, p_single_group=0.3, alias=True, combiner=True, fsm=True, nested_methods=True, single_caller=True, ready_dep=True, p_fresh=0.5, mprio=True, p_tm_conflict=0.2,
             p_conflict=0.6, p_before=0.5, invalid=True)
 BOUNDS = {"quick": "60 batches x 25 random specs (valid and invalid), eager scheduler", "thorough": "600 batches x 40 random specs"}
 OUTSIDE = OUTSIDE_COMMON + ["other grounds on which the library rejects designs (undefined methods, layout mismatches, simultaneity constraints)"]
